@@ -3579,6 +3579,8 @@ def _parse_simple_lines(
                         if isinstance(entry, bool):
                             pattern_values.append(1 if entry else 0)
                         elif isinstance(entry, (int, float)):
+                            if entry != entry or entry in (float("inf"), float("-inf")):
+                                raise ValueError("flash_pattern values must be finite")
                             pattern_values.append(int(entry))
                         else:
                             raise ValueError("flash_pattern values must be numeric")
@@ -4039,7 +4041,11 @@ def _parse_simple_lines(
                     raise ValueError("glyph bitmap must be a list of integers")
                 bitmap_list: List[int] = []
                 for entry in bitmap_value:
-                    if not isinstance(entry, (int, float)):
+                    if (
+                        not isinstance(entry, (int, float))
+                        or entry != entry
+                        or entry in (float("inf"), float("-inf"))
+                    ):
                         raise ValueError("glyph bitmap must be a list of integers")
                     bitmap_list.append(int(entry))
                 if len(bitmap_list) != 8:
